@@ -356,6 +356,8 @@ class CodeGenerator(abc.ABC):
             state_index={s.name: i for i, s in enumerate(self.ode.sorted_states())},
             parameter_index={p.name: i for i, p in enumerate(self.ode.parameters)},
             missing_index=dict(self._missing_variables),
+            assignments=sorted(a.name for a in self.ode.intermediates)
+            + sorted(d.name for d in self.ode.state_derivatives),
             code=code,
             **fields,
         )
